@@ -1995,7 +1995,14 @@ func (in *inliner) exprInline(root ast.Node) {
 			return true
 		}
 		for _, a := range args {
-			if !simpleOperand(a) {
+			ok := simpleOperand(a)
+			if cv, isCall := ast.Unparen(a).(*ast.CallExpr); !ok && isCall && len(cv.Args) == 1 {
+				// a conversion of a simple operand (`uint32(s.Id)`) can be repeated as freely as the operand itself
+				if tv, has := info.Types[cv.Fun]; has && tv.IsType() && simpleOperand(cv.Args[0]) {
+					ok = true
+				}
+			}
+			if !ok {
 				return true
 			}
 		}
